@@ -1,9 +1,9 @@
 CONSTANTS
   ProgOf <- FamProgOf
   MaxSteps = 20000
-  HistLen = 3
-  NRandom = 5000
-  RandLen = 25
+  HistLen = 2
+  NRandom = 15000
+  RandLen = 12
   EmitOn = TRUE
 INIT Init
 NEXT Next
